@@ -467,7 +467,7 @@ def evaluate__datetime_type_and_function(self: XPathConstructor, context: ta.Con
 
 @constructor('untypedAtomic')
 def cast__untyped_atomic(self: XPathConstructor, value: ta.AtomicType) -> UntypedAtomic:
-    return UntypedAtomic(value)
+    return UntypedAtomic(self.string_value(value))
 
 
 @method('untypedAtomic')
